@@ -7,11 +7,18 @@ backward reader `revreadlines`, `find_xref`, the body-scan cue).  Object syntax 
 are parameters: an indirect object appears as its parsed header `(objnum, gen)` plus an opaque
 value id, an object stream as its parsed token list (C01 / C03 cover those layers).
 
-Import-free (the driver links against this file).
+Literal / straight-line fragments (`nunpack`, the row-type chain of `get_pos`, the in-use test of
+`get_objids`, the `/Index` default, `b"trailer"`, `b"startxref"`, `b"n"`, the field counts, the
+object-stream index formula, the order in which `read_xref_from` follows trailer keys) come from
+`Gen/Xref.lean`, REGENERATED from the Python source on every run.
+
+Import-free apart from that (the driver links against this file).
 -/
-import PdfVerif.Model.Prelude
+import PdfVerif.Gen.Xref
 
 namespace PdfVerif.Xref
+
+open PdfVerif.Gen.Xref
 
 inductive Err
   | notFound      -- PDFObjectNotFound
@@ -50,14 +57,6 @@ structure Entry where
 
 /-! ### `utils.nunpack` and cross-reference stream rows -/
 
-def beNat (s : Bytes) : Nat := s.foldl (fun a b => a * 256 + b.toNat) 0
-
-/-- `nunpack(s, default)`. -/
-def nunpack (s : Bytes) (dflt : Nat) : Nat :=
-  match s with
-  | [] => dflt
-  | _ => beNat s
-
 /-- `PDFXRefStream` after `load`. -/
 structure XStream where
   ranges : List (Nat × Nat)
@@ -78,29 +77,31 @@ def findIndex : List (Nat × Nat) → Nat → Nat → Option Nat
   | (s, c) :: rest, n, acc =>
     if s ≤ n ∧ n < s + c then some (acc + (n - s)) else findIndex rest n (acc + c)
 
-/-- Decode row `i`: `(f1, f2, f3)` with the `nunpack` defaults (type 1 when `fl1 = 0`). -/
+/-- Decode row `i` as `get_pos` does: `(f1, f2, f3)` with the `nunpack` defaults. -/
 def XStream.row (x : XStream) (i : Nat) : Nat × Nat × Nat :=
   let ent := slice x.data (x.entlen * i) x.entlen
-  (nunpack (ent.take x.fl1) 1, nunpack ((ent.drop x.fl1).take x.fl2) 0, nunpack (ent.drop (x.fl1 + x.fl2)) 0)
+  (nunpack (ent.take x.fl1) typeDefault, nunpack ((ent.drop x.fl1).take x.fl2) field2Default,
+   nunpack (ent.drop (x.fl1 + x.fl2)) field3Default)
 
-def entryOfRow (r : Nat × Nat × Nat) : Option Entry :=
-  if r.1 = 1 then some ⟨none, r.2.1, r.2.2⟩
-  else if r.1 = 2 then some ⟨some r.2.1, r.2.2, 0⟩
-  else none
+/-- The type field of row `i` as `get_objids` decodes it (its own `nunpack` call). -/
+def XStream.rowType (x : XStream) (i : Nat) : Nat :=
+  nunpack ((slice x.data (x.entlen * i) x.entlen).take x.fl1) objidsTypeDefault
+
+/-- The generated `if f1 == …` chain packaged as an `Entry`. -/
+def rowEntry (r : Nat × Nat × Nat) : Option Entry :=
+  (entryOfRow r.1 r.2.1 r.2.2).map (fun t => ⟨t.1, t.2.1, t.2.2⟩)
 
 /-- `PDFXRefStream.get_pos`; `none` = `PDFKeyError`. -/
 def XStream.getPos (x : XStream) (n : Nat) : Option Entry :=
   match findIndex x.ranges n 0 with
   | none => none
-  | some i => entryOfRow (x.row i)
-
-def inUseType (t : Nat) : Bool := t == 1 || t == 2
+  | some i => rowEntry (x.row i)
 
 /-- `PDFXRefStream.get_objids` (after the fix: the row index keeps counting across ranges). -/
 def objidsAux (x : XStream) : List (Nat × Nat) → Nat → List Nat
   | [], _ => []
   | (s, c) :: rest, idx =>
-    ((List.range c).filterMap (fun i => if inUseType (x.row (idx + i)).1 then some (s + i) else none))
+    ((List.range c).filterMap (fun i => if inUseType (x.rowType (idx + i)) then some (s + i) else none))
       ++ objidsAux x rest (idx + c)
 
 def XStream.getObjids (x : XStream) : List Nat := objidsAux x x.ranges 0
@@ -109,7 +110,7 @@ def XStream.getObjids (x : XStream) : List Nat := objidsAux x x.ranges 0
 def objidsPinned (x : XStream) : List (Nat × Nat) → List Nat
   | [] => []
   | (s, c) :: rest =>
-    ((List.range c).filterMap (fun i => if inUseType (x.row i).1 then some (s + i) else none))
+    ((List.range c).filterMap (fun i => if inUseType (x.rowType i) then some (s + i) else none))
       ++ objidsPinned x rest
 
 def choplist2 : List Nat → List (Nat × Nat)
@@ -118,7 +119,7 @@ def choplist2 : List Nat → List (Nat × Nat)
 
 /-- `PDFXRefStream.load` once the stream dictionary is parsed. -/
 def xsLoad (size : Nat) (index : Option (List Nat)) (w : List Nat) (data : Bytes) : Except Err XStream :=
-  let ia := index.getD [0, size]
+  let ia := index.getD (defaultIndex size)
   if ia.length % 2 ≠ 0 then .error .syntax else
   match w with
   | [a, b, c] => .ok ⟨choplist2 ia, a, b, c, data⟩
@@ -149,13 +150,13 @@ def isPySpace (b : UInt8) : Bool := b == 32 || (9 ≤ b && b ≤ 13)
 def strip (s : Bytes) : Bytes :=
   ((s.dropWhile isPySpace).reverse.dropWhile isPySpace).reverse
 
-/-- `s.split(b" ")`. -/
+/-- `s.split(b" ")` (separator from the source). -/
 def splitSp : Bytes → List Bytes
   | [] => [[]]
   | b :: rest =>
     match splitSp rest with
     | [] => [[b]]     -- unreachable
-    | h :: t => if b == 32 then [] :: h :: t else (b :: h) :: t
+    | h :: t => if b == fieldSep then [] :: h :: t else (b :: h) :: t
 
 def isDigit (b : UInt8) : Bool := 48 ≤ b && b ≤ 57
 
@@ -173,9 +174,6 @@ def parseInt (s : Bytes) : Option Int :=
 
 def startsWith (s p : Bytes) : Bool := s.take p.length == p
 
-def kwTrailer : Bytes := [116, 114, 97, 105, 108, 101, 114]
-def kwStartxref : Bytes := [115, 116, 97, 114, 116, 120, 114, 101, 102]
-
 /-- `self.offsets[objid] = …` on an association list in insertion order. -/
 def insertOff (offs : List (Int × Entry)) (k : Int) (e : Entry) : List (Int × Entry) :=
   if offs.any (fun p => p.1 == k) then offs.map (fun p => if p.1 == k then (k, e) else p)
@@ -189,16 +187,17 @@ def tableEntries : Nat → Int → Bytes → Nat → List (Int × Entry) → Exc
     | none => .error .noValidXRef
     | some (line, k) =>
       let f := splitSp (strip line)
+      if f.length != entryFields then .error .noValidXRef else
       match f with
       | [p, g, u] =>
         let offs' :=
-          if u == [110] then
+          if u == inUseMarker then
             match parseInt p, parseInt g with
             | some pi, some gi => if 0 ≤ pi ∧ 0 ≤ gi then insertOff offs objid ⟨none, pi.toNat, gi.toNat⟩ else offs
             | _, _ => offs
           else offs
         tableEntries cnt (objid + 1) (rest.drop k) (pos + k) offs'
-      | _ => .error .noValidXRef
+      | _ => .error .unmodelled      -- `(pos_b, genno_b, use_b) = f` with a field count other than 3
 
 /-- `PDFXRef.load` up to (not including) the trailer: the `while True` loop over subsections.
 `rest` is the unread file from `pos`.  Returns the offsets and the position of the `trailer` line. -/
@@ -211,6 +210,7 @@ def tableLoop : Nat → Bytes → Nat → List (Int × Entry) → Except Err (Li
       let l := strip line
       if l.isEmpty then tableLoop fuel (rest.drop k) (pos + k) offs
       else if startsWith l kwTrailer then .ok (offs, pos)
+      else if (splitSp l).length != headerFields then .error .noValidXRef
       else
         match splitSp l with
         | [a, b] =>
@@ -220,7 +220,7 @@ def tableLoop : Nat → Bytes → Nat → List (Int × Entry) → Except Err (Li
             | .error e => .error e
             | .ok (offs', rest', pos') => tableLoop fuel rest' pos' offs'
           | _, _ => .error .noValidXRef
-        | _ => .error .noValidXRef
+        | _ => .error .unmodelled    -- `(start, nobjs) = map(int, f)` with a field count other than 2
 
 /-- `read_xref_from` on the `xref` keyword: `parser.nextline()` (rest of the keyword's line), then
 `PDFXRef.load`.  `afterKw` is the offset just behind the keyword token. -/
@@ -336,27 +336,27 @@ def loadSection (ph : Phys) (d : SecDesc) : Except Err (Section × Trailer) :=
     | .error e => .error e
     | .ok x => .ok (.stream x, tr)
 
-/-- `read_xref_from`: load the section at `start`, then follow `XRefStm`, then `Prev`. -/
-def readXrefFrom (ph : Phys) : Nat → Nat → List (Section × Trailer) → Except Err (List (Section × Trailer))
+def Trailer.get (tr : Trailer) (k : String) : Option Nat :=
+  if k == "XRefStm" then tr.xrefstm else if k == "Prev" then tr.prev else none
+
+/-- `read_xref_from`: skip a position already visited (circular `/Prev` / `/XRefStm`), load the
+section at `start`, then follow the trailer keys in the order of the source (`chainOrder`).
+State = (sections so far, visited positions), shared along the whole chain like the Python set. -/
+def readXrefFrom (ph : Phys) : Nat → Nat → List (Section × Trailer) × List Nat →
+    Except Err (List (Section × Trailer) × List Nat)
   | 0, _, _ => .error .recursion
-  | fuel + 1, start, acc =>
+  | fuel + 1, start, (acc, visited) =>
+    if visited.contains start then .ok (acc, visited) else
     match lookupNat ph.secs start with
     | none => .error .noValidXRef
     | some d =>
       match loadSection ph d with
       | .error e => .error e
       | .ok (s, tr) =>
-        let acc1 := acc ++ [(s, tr)]
-        let r1 : Except Err (List (Section × Trailer)) :=
-          match tr.xrefstm with
-          | some p => readXrefFrom ph fuel p acc1
-          | none => .ok acc1
-        match r1 with
-        | .error e => .error e
-        | .ok acc2 =>
-          match tr.prev with
-          | some p => readXrefFrom ph fuel p acc2
-          | none => .ok acc2
+        chainOrder.foldlM (fun st k =>
+          match tr.get k with
+          | some p => readXrefFrom ph fuel p st
+          | none => .ok st) (acc ++ [(s, tr)], start :: visited)
 
 /-- `_getobj_parse`: the object header at `pos` must carry the number asked for. -/
 def parseAt (objs : List (Nat × Nat × Nat × Val)) (pos n : Nat) : Except Err Val :=
@@ -368,7 +368,7 @@ def parseAt (objs : List (Nat × Nat × Nat × Val)) (pos n : Nat) : Except Err 
 def objstmMember (c : Val) (index : Nat) : Except Err Val :=
   match c with
   | .objstm _ n objs =>
-    match objs[n * 2 + index]? with
+    match objs[objstmIndex n index]? with
     | some t => .ok t.toVal
     | none => .error .syntax
   | _ => .error .syntax      -- stream_value of a non-stream is an empty stream: "index too big"
